@@ -256,7 +256,9 @@ func blockCases(w *sim.World, out *c.Out, r *c.Rng, n int) {
 		keeperWould := k.ValidateLiquidation(ctx, colCoin, t.Name, sdk.NewCoin("usdx", sdkmath.NewIntFromBigInt(debt)), sdk.NewCoin("usdx", sdk.ZeroInt())) == nil
 		sig := fmt.Sprintf("cf=%d|%s|seized=%v|keeperGate=%v", t.CF, gen, !still, keeperWould)
 		if !still && !keeperWould {
+			// former finding F3 (fixed by b28e8ed21): must not come back
 			out.Note("block:seized-although-ValidateLiquidation-refuses")
+			out.Violation(fmt.Sprintf("cdp-block-liquidation-seized-at-or-above-ratio c05.block cf=%d col=%s debt=%s price=%s L=%s", t.CF, col, debt, price, L))
 		}
 		out.Case(sig, "c05.block", col.String(), fmt.Sprint(t.CF), debt.String(), "6", price.String(), L.String(), "=>", c.B(!still))
 	}
@@ -275,6 +277,25 @@ func directed(w *sim.World, out *c.Out, r *c.Rng) {
 		s.Create(3, 0, new(big.Int).Mul(bi(30), sim.Pow10(8)), 2, bi(10000000), 0, "f3-at-ratio")
 		s.Liquidate(7, 3, 0, "f3-keeper-refused")
 		s.NextBlock(1, "f3-same-price")
+		if len(s.Pre().Cdps) != 1 {
+			out.Violation("cdp-block-liquidation-seized-at-or-above-ratio in the directed F3 scenario (fixed by b28e8ed21)")
+		}
+	}
+	// former F2: two equal deposits, odd debt, price crash → the begin blocker must seize without panic and
+	// exactly the debt must enter auctions
+	{
+		p := sim.DefaultParams()
+		s := w.NewSeq(out, "c05.op", -3, r.Fork(9103), p)
+		col := new(big.Int).Mul(bi(10), sim.Pow10(8))
+		s.Create(3, 0, col, 2, bi(10000003), 0, "f2")
+		s.Deposit(3, 7, 0, col, 2, "f2-equal")
+		s.NextBlock(1, "f2")
+		s.PostPrice(0, sdk.MustNewDecFromStr("0.001"), false)
+		s.PostPrice(1, sdk.MustNewDecFromStr("0.001"), false)
+		cls, err := s.NextBlock(5, "f2-crash")
+		if cls != kapp.OK {
+			out.Violation(fmt.Sprintf("cdp-auction-debt-split-rounding begin-block %s in the directed F2 scenario: %v", cls, err))
+		}
 	}
 	// only the liquidation feed expires; then the owner draws
 	{
@@ -287,7 +308,9 @@ func directed(w *sim.World, out *c.Out, r *c.Rng) {
 		s.Deposit(4, 4, 3, bi(1000000), 4, "feed-liq-down")
 		s.Withdraw(4, 4, 3, bi(1), 4, "feed-liq-down")
 		s.Create(5, 3, new(big.Int).Mul(bi(100), sim.Pow10(6)), 4, bi(20000000), 0, "feed-liq-down")
-		s.Draw(4, 3, bi(1000000), 0, "feed-liq-down")
+		if cls, _ := s.Draw(4, 3, bi(1000000), 0, "feed-liq-down"); cls == kapp.OK {
+			out.Violation("cdp-draw-accepted-while-liquidation-feed-down (former finding F12, fixed by cb3596bb2)")
+		}
 	}
 }
 
